@@ -20,9 +20,9 @@ pub const EXTRA_FLAGS: [&str; 1] = ["three_or_more_nodes"];
 
 pub fn plan(quick: bool) -> Vec<Part> {
     let mut v = vec![];
-    let (l4, p4) = if quick { (7, 5) } else { (10, 6) };
-    let l5 = if quick { 7 } else { 10 };
-    let l6 = if quick { 7 } else { 10 };
+    let (l4, p4) = if quick { (7, 5) } else { (9, 5) };
+    let l5 = if quick { 7 } else { 9 };
+    let l6 = if quick { 7 } else { 9 };
     v.push(Part::new("C19", "R1+RT", 4, Space::singles(4, l4).plus(Space::thresholds(4, l4 - 1))));
     v.push(Part::new("C19", "R2", 4, if quick { Space { segs: vec![Seg::Pair(4, 4), Seg::Pair(5, 4)] } } else { Space::pairs(4, p4) }));
     v.push(Part::new("C19", "R1", 5, Space::singles(5, l5)));
@@ -32,7 +32,7 @@ pub fn plan(quick: bool) -> Vec<Part> {
     }
     // hand-built graphs: arbitrary node lists handed to BaseGraph::add (not the output of the crate's own compressors),
     // e.g. nodes longer than K that start or end with a palindromic k-mer
-    let hb = if quick { Space::singles(4, 6).plus(Space { segs: vec![Seg::Pair(4, 4), Seg::Pair(5, 4)] }) } else { Space::singles(4, 8).plus(Space::pairs(4, 6)).plus(Space::triples(4, 4)) };
+    let hb = if quick { Space::singles(4, 6).plus(Space { segs: vec![Seg::Pair(4, 4), Seg::Pair(5, 4)] }) } else { Space::singles(4, 8).plus(Space::pairs(4, 5)).plus(Space::triples(4, 4)) };
     v.push(Part::new("C19", "handbuilt-node-lists", 4, hb).dim("handbuilt", &[1]));
     v.push(Part::new("C19", "handbuilt-node-lists", 5, if quick { Space::singles(5, 7) } else { Space::singles(5, 8).plus(Space { segs: vec![Seg::Pair(5, 5)] }) }).dim("handbuilt", &[1]));
     v.push(Part::new("C19", "handbuilt-node-lists", 6, Space::singles(6, if quick { 7 } else { 9 })).dim("handbuilt", &[1]));
